@@ -3,6 +3,7 @@ package server
 import (
 	"context"
 	"errors"
+	"sync"
 
 	"github.com/feichai0017/NoKV/manifest"
 	"github.com/feichai0017/NoKV/pb"
@@ -21,6 +22,10 @@ type Service struct {
 	ids     *core.IDAllocator
 	tso     *tso.Allocator
 	storage pdstorage.Store
+
+	// persistMu makes "read the allocator counters, write the checkpoint" one
+	// step, so that checkpoints reach storage in counter order.
+	persistMu sync.Mutex
 }
 
 // NewService constructs a PD-lite service.
@@ -188,6 +193,12 @@ func (s *Service) persistAllocatorState() error {
 	if s == nil || s.storage == nil {
 		return nil
 	}
+	// Without the lock a request that read the counters early could write its
+	// checkpoint after a later request's, moving the persisted counters back
+	// below values that have already been returned to clients; a restart from
+	// that checkpoint would hand those values out again.
+	s.persistMu.Lock()
+	defer s.persistMu.Unlock()
 	return s.storage.SaveAllocatorState(s.ids.Current(), s.tso.Current())
 }
 
